@@ -52,4 +52,75 @@ def Listener.step (s : Listener) : LOp → Listener × Option Bool
   | .setKnown p a => ({ s with known := s.known ++ [(p, a)] }, none)
   | .removeKnown p => ({ s with known := s.known.filter (·.1 ≠ p) }, none)
 
+/-! ## background dialing: one connectivity check (`handle_connectivity_check`) -/
+
+structure Backoff where
+  until_ : Nat          -- earliest time of the next attempt (ms)
+  attempts : Nat        -- consecutive failed attempts so far
+  deriving DecidableEq, Repr
+
+/-- `DialBackoffState::{new, update}`: one more failure noticed at `now` -/
+def Backoff.update (now step max : Nat) (prev : Option Backoff) : Backoff :=
+  let attempts := (match prev with | some b => b.attempts | none => 0) + 1
+  { until_ := now + min max (step * min attempts (2^32 - 1)), attempts := attempts }
+
+structure KnownPeer where
+  id : Nat
+  aff : Affinity
+  naddr : Nat            -- number of addresses
+  deriving DecidableEq, Repr
+
+structure TickCfg where
+  own : Nat
+  cap : Nat              -- max_concurrent_outstanding_connecting_connections
+  step : Nat             -- connection_backoff (ms)
+  max : Nat              -- max_connection_backoff (ms)
+  deriving Repr
+
+structure TickState where
+  pending : List Nat := []                       -- peers with a background dial in flight
+  backoffs : List (Nat × Backoff) := []
+  deriving Repr
+
+def lookupBackoff (l : List (Nat × Backoff)) (p : Nat) : Option Backoff :=
+  match l with
+  | [] => none
+  | (q, b) :: rest => if q = p then some b else lookupBackoff rest p
+
+def setBackoff (l : List (Nat × Backoff)) (p : Nat) (b : Backoff) : List (Nat × Backoff) :=
+  (p, b) :: l.filter (·.1 ≠ p)
+
+/-- step 1: results of finished background dials are noticed -/
+def drain (cfg : TickCfg) (now : Nat) (st : TickState) : List (Nat × Bool) → TickState
+  | [] => st
+  | (p, ok) :: rest =>
+    if p ∈ st.pending then
+      let st' : TickState :=
+        { pending := st.pending.filter (· ≠ p),
+          backoffs := if ok then st.backoffs.filter (·.1 ≠ p)
+                      else setBackoff st.backoffs p (Backoff.update now cfg.step cfg.max (lookupBackoff st.backoffs p)) }
+      drain cfg now st' rest
+    else drain cfg now st rest
+
+/-- step 2: who may be dialled now -/
+def eligible (cfg : TickCfg) (now : Nat) (connected : List Nat) (st : TickState) (k : KnownPeer) : Bool :=
+  k.aff == .high && k.id != cfg.own && decide (0 < k.naddr) && !decide (k.id ∈ connected) && !decide (k.id ∈ st.pending) &&
+  (match lookupBackoff st.backoffs k.id with
+   | some b => decide (b.until_ < now)
+   | none => true)
+
+def addrIndex (st : TickState) (k : KnownPeer) : Nat :=
+  (match lookupBackoff st.backoffs k.id with | some b => b.attempts | none => 0) % k.naddr
+
+/-- one connectivity check.  `known` is given in the (unspecified) iteration order of the table;
+`pendingConns` is the number of connections being established at this moment (background dials,
+explicit dials and inbound handshakes alike).  Returns the dials started as (peer, address index). -/
+def tick (cfg : TickCfg) (now : Nat) (known : List KnownPeer) (connected : List Nat) (pendingConns : Nat)
+    (done : List (Nat × Bool)) (st : TickState) : TickState × List (Nat × Nat) :=
+  let st1 := drain cfg now st done
+  let el := known.filter (eligible cfg now connected st1)
+  let n := min el.length (cfg.cap - pendingConns)
+  let chosen := el.take n
+  ({ st1 with pending := st1.pending ++ chosen.map (·.id) }, chosen.map fun k => (k.id, addrIndex st1 k))
+
 end Anemo
